@@ -416,14 +416,16 @@ func windingOrderIsCorrect(ring [][2]float64, shouldBeClockwise bool) bool {
 	return wo.IsClockwise() && shouldBeClockwise || wo.IsCounterClockwise() && !shouldBeClockwise || wo.IsColinear()
 }
 
-// TODO: rewrite by using intgeoms for as long as possible
-func isHitMultiple(hitMultiple map[intgeom.Point][]int, vertex [2]float64, ringIdx int) bool {
-	intVertex := intgeom.FromGeomPoint(vertex)
-	return slices.Contains(hitMultiple[intVertex], ringIdx) || // exact match
-		slices.Contains(hitMultiple[intgeom.Point{intVertex[xAx] + 1, intVertex[yAx]}], ringIdx) || // fuzzy search
-		slices.Contains(hitMultiple[intgeom.Point{intVertex[xAx] - 1, intVertex[yAx]}], ringIdx) ||
-		slices.Contains(hitMultiple[intgeom.Point{intVertex[xAx], intVertex[yAx] + 1}], ringIdx) ||
-		slices.Contains(hitMultiple[intgeom.Point{intVertex[xAx], intVertex[yAx] - 1}], ringIdx)
+// hitMultipleVertices returns the vertices (as handed out by the point index) that the given ring hits more than once.
+// The lookup is by the float form the index produced, so that no float -> integer round trip is involved.
+func hitMultipleVertices(hitMultiple map[intgeom.Point][]int, ringIdx int) map[[2]float64]struct{} {
+	vertices := make(map[[2]float64]struct{}, len(hitMultiple))
+	for intVertex, ringIdxs := range hitMultiple {
+		if slices.Contains(ringIdxs, ringIdx) {
+			vertices[intVertex.ToGeomPoint()] = struct{}{}
+		}
+	}
+	return vertices
 }
 
 // split ring into multiple rings at any point where the ring goes through the point more than once
@@ -435,8 +437,9 @@ func splitRing(ring [][2]float64, isOuter bool, hitMultiple map[intgeom.Point][]
 	stack.Set(partialRingIdx, [][2]float64{})
 	completeRings := make(map[int][][2]float64)
 	checkRing := append(ring, ring[0])
+	hitMultipleByRing := hitMultipleVertices(hitMultiple, ringIdx)
 	for vertexIdx, vertex := range checkRing {
-		if vertexIdx == 0 || !isHitMultiple(hitMultiple, vertex, ringIdx) {
+		if _, isHitMultiple := hitMultipleByRing[vertex]; vertexIdx == 0 || !isHitMultiple {
 			if partialRing, inited := stack.Get(partialRingIdx); !inited {
 				stack.Set(partialRingIdx, make([][2]float64, 0, len(checkRing)))
 			} else {
